@@ -256,6 +256,8 @@ fn run_arrange(f: &[&str]) -> String {
 
 struct Site {
     path: SelPath,
+    /// type the selection is selected on
+    ty: String,
     sel: Selection,
     target: hx_projgen::env::Selectable,
 }
@@ -263,12 +265,147 @@ struct Site {
 fn sites(p: &Project) -> Vec<Site> {
     let env = Env::new(p);
     let mut out = vec![];
-    env.walk(|path, _ty, sel, found| {
+    env.walk(|path, ty, sel, found| {
         if let Some(t) = found {
-            out.push(Site { path: path.clone(), sel: sel.clone(), target: t.clone() });
+            out.push(Site { path: path.clone(), ty: ty.to_string(), sel: sel.clone(), target: t.clone() });
         }
     });
     out
+}
+
+// ---- duplicate response names, by the kinds of the two colliding selections -------------------
+
+pub const DUP_CLASSES: &[&str] = &["scalar-scalar", "object-object", "scalar-alias-vs-object", "object-alias-vs-scalar"];
+
+/// Two selections of one selection set with the same response name; `class` says what the two
+/// selections are (without / with a selection set) and which one borrows the other's name as alias.
+fn fault_duplicate_response_name(r: &mut Rng, p: &Project, class: &str) -> Option<Project> {
+    let ss = sites(p);
+    let env = Env::new(p);
+    let well_shaped = |s: &&Site| s.sel.kids().is_some() == s.target.kind.is_linked();
+    let mut q = p.clone();
+    match class {
+        "scalar-scalar" | "object-object" => {
+            let want_linked = class == "object-object";
+            let c: Vec<&Site> = ss.iter().filter(well_shaped).filter(|s| s.sel.kids().is_some() == want_linked).collect();
+            if c.is_empty() {
+                return None;
+            }
+            let s = *r.pick(&c);
+            let last = *s.path.idx.last()?;
+            let set = s.path.parent_set_mut(&mut q)?;
+            let at = if r.chance(1, 2) { last } else { last + 1 };
+            set.insert(at, s.sel.clone());
+        }
+        "scalar-alias-vs-object" => {
+            // `R { … }` is there; add `R: __typename`
+            let c: Vec<&Site> = ss.iter().filter(well_shaped).filter(|s| s.sel.kids().is_some()).collect();
+            if c.is_empty() {
+                return None;
+            }
+            let s = *r.pick(&c);
+            let name = s.sel.response_name().to_string();
+            let mut head = SelHead::new("__typename");
+            if name != "__typename" {
+                head.alias = Some(name);
+            }
+            let last = *s.path.idx.last()?;
+            let set = s.path.parent_set_mut(&mut q)?;
+            let at = if r.chance(1, 2) { last } else { last + 1 };
+            set.insert(at, Selection::Scalar(head));
+        }
+        "object-alias-vs-scalar" => {
+            // `R` (no selection set) is there; add `R: someObjectField { __typename }`
+            let mut c: Vec<(&Site, String)> = vec![];
+            for s in ss.iter().filter(well_shaped).filter(|s| s.sel.kids().is_none()) {
+                for cand in env.selectables(&s.ty) {
+                    if cand.kind == SelKind::ServerObject && cand.required_args().next().is_none() {
+                        c.push((s, cand.name.clone()));
+                    }
+                }
+            }
+            if c.is_empty() {
+                return None;
+            }
+            let (s, field) = r.pick(&c).clone();
+            let name = s.sel.response_name().to_string();
+            let mut head = SelHead::new(&field);
+            if name != field {
+                head.alias = Some(name);
+            }
+            let last = *s.path.idx.last()?;
+            let set = s.path.parent_set_mut(&mut q)?;
+            let at = if r.chance(1, 2) { last } else { last + 1 };
+            set.insert(at, Selection::Linked(head, vec![Selection::scalar("__typename")]));
+        }
+        _ => return None,
+    }
+    Some(q)
+}
+
+// ---- required arguments of list type ------------------------------------------------------------
+
+pub const LIST_ARG_CLASSES: &[&str] = &["list-scalar", "list-linked", "list-given"];
+
+/// Adds to an object type of the schema a field with a REQUIRED list argument without default
+/// (`zz_sizes(sizes: [Int!]!): Int` / `zz_users(ids: [ID!]!): <the type itself>`) and selects it in a
+/// selection set on that type: `list-scalar` / `list-linked` WITHOUT the argument (one fault:
+/// missing required argument), `list-given` with a variable of exactly that type (valid).
+fn list_argument_case(r: &mut Rng, p: &Project, class: &str) -> Option<Project> {
+    let ss = sites(p);
+    // selection sets on object types, inside client fields (pointers are left alone)
+    let c: Vec<&Site> = ss
+        .iter()
+        .filter(|s| matches!(p.schema.get(&s.ty).map(|t| &t.kind), Some(TypeKind::Object { .. })))
+        .filter(|s| matches!(p.decls[s.path.decl].1, Decl::ClientField(_)))
+        .collect();
+    if c.is_empty() {
+        return None;
+    }
+    let s = *r.pick(&c);
+    let linked = match class {
+        "list-linked" => true,
+        "list-scalar" => false,
+        _ => r.chance(1, 2),
+    };
+    let (field, arg, inner) = if linked { ("zz_users", "ids", "ID") } else { ("zz_sizes", "sizes", "Int") };
+    let arg_ty = TypeRef::named(inner).non_null().list().non_null();
+    let mut q = p.clone();
+    for t in q.schema.types.iter_mut() {
+        if t.name == s.ty {
+            if let TypeKind::Object { fields, .. } = &mut t.kind {
+                if fields.iter().any(|f| f.name == field) {
+                    return None;
+                }
+                fields.push(FieldDef {
+                    name: field.to_string(),
+                    description: None,
+                    args: vec![ArgDef { name: arg.to_string(), description: None, ty: arg_ty.clone(), default: None }],
+                    ty: if linked { TypeRef::named(&s.ty) } else { TypeRef::named("Int") },
+                });
+            }
+        }
+    }
+    let mut head = SelHead::new(field);
+    if class == "list-given" {
+        let var = "zz_list";
+        if q.decls[s.path.decl].1.vars().iter().any(|v| v.name == var) {
+            return None;
+        }
+        head.args.push((arg.to_string(), Value::var(var)));
+        // nullable-free type, so every selection of this client field would have to pass it: only
+        // declarations nobody selects get the new variable
+        let (parent, name) = (q.decls[s.path.decl].1.parent().to_string(), q.decls[s.path.decl].1.name().to_string());
+        let selected_somewhere = ss.iter().any(|x| x.ty == parent && x.sel.head().name == name);
+        if selected_somewhere {
+            return None;
+        }
+        q.decls[s.path.decl].1.vars_mut()?.push(VarDef { name: var.to_string(), ty: arg_ty, default: None });
+    }
+    let new_sel = if linked { Selection::Linked(head, vec![Selection::scalar("__typename")]) } else { Selection::Scalar(head) };
+    let last = *s.path.idx.last()?;
+    s.path.parent_set_mut(&mut q)?.insert(last + 1, new_sel);
+    Some(q)
 }
 
 /// A VALID program the current compiler rejects (projgen finding 1): a variable whose type is
@@ -335,15 +472,16 @@ const DEFECTS: &[&str] = &["missing-required-argument-linked", "nullable-list-va
 
 fn gen_validate(r: &mut Rng, i: u64) -> Vec<String> {
     let o = gen_opts();
-    // 1 in 4 unmutated; 1 in 16 from the known-defect streams; the rest single-fault mutants, the
-    // kind chosen round-robin so that every kind is hit equally often
-    let slot = i % 16;
-    if slot % 4 == 0 && slot != 0 {
+    // blocks of 24 cases: 1 from the known-defect streams, 3 unmutated, 3 from the targeted classes
+    // (duplicate response names by kind pair, required list arguments), 17 single-fault mutants of
+    // hx_projgen, the kind chosen round-robin so that every kind is hit equally often
+    let (block, slot) = (i / 24, i % 24);
+    if slot == 4 || slot == 12 || slot == 20 {
         let p = generate(r, &o);
         return vec![format!("validate\tvalid\t{}", to_wire(&p))];
     }
     if slot == 0 {
-        let name = DEFECTS[((i / 16) % DEFECTS.len() as u64) as usize];
+        let name = DEFECTS[(block % DEFECTS.len() as u64) as usize];
         for _ in 0..40 {
             let p = generate(r, &o);
             let q = match name {
@@ -358,8 +496,30 @@ fn gen_validate(r: &mut Rng, i: u64) -> Vec<String> {
         let p = generate(r, &o);
         return vec![format!("validate\tvalid\t{}", to_wire(&p))];
     }
-    // mutant slots: 1,2,3,5,6,7,9,10,11,13,14,15 → 12 per 16
-    let k = (i / 16) * 12 + [0, 0, 1, 2, 0, 3, 4, 5, 0, 6, 7, 8, 0, 9, 10, 11][slot as usize];
+    if slot == 8 || slot == 16 || slot == 23 {
+        let j = block * 3 + match slot { 8 => 0, 16 => 1, _ => 2 };
+        let n = (DUP_CLASSES.len() + LIST_ARG_CLASSES.len()) as u64;
+        let k = (j % n) as usize;
+        for _ in 0..60 {
+            let p = generate(r, &o);
+            if k < DUP_CLASSES.len() {
+                if let Some(q) = fault_duplicate_response_name(r, &p, DUP_CLASSES[k]) {
+                    return vec![format!("validate\tfault:duplicate-response-name:{}\t{}", DUP_CLASSES[k], to_wire(&q))];
+                }
+            } else {
+                let class = LIST_ARG_CLASSES[k - DUP_CLASSES.len()];
+                if let Some(q) = list_argument_case(r, &p, class) {
+                    let tag = if class == "list-given" { "valid:list-argument".to_string() } else { format!("fault:missing-required-argument:{class}") };
+                    return vec![format!("validate\t{tag}\t{}", to_wire(&q))];
+                }
+            }
+        }
+        let p = generate(r, &o);
+        return vec![format!("validate\tvalid\t{}", to_wire(&p))];
+    }
+    // mutant slots: the 17 remaining ones
+    let before = (0..slot).filter(|s| ![0u64, 4, 8, 12, 16, 20, 23].contains(s)).count() as u64;
+    let k = block * 17 + before;
     let kind = FaultKind::ALL[(k % FaultKind::ALL.len() as u64) as usize];
     for _ in 0..40 {
         let p = generate(r, &o);
@@ -490,6 +650,44 @@ fn witnesses() -> Vec<(&'static str, String)> {
             p
         };
         out.push(("C15 nested-variable-through-client-field", format!("arrange\tperm\t{}\t{}", to_wire(&build(true)), to_wire(&build(false)))));
+    }
+    // C16: duplicate response names across selection KINDS, and required LIST arguments without default
+    {
+        let user = || {
+            obj_type(
+                "User",
+                vec![
+                    fd("id", vec![], named("ID").non_null()),
+                    fd("name", vec![], named("String")),
+                    fd("email", vec![], named("String")),
+                    fd("bestFriend", vec![], named("User")),
+                    fd("avatar", vec![ad("sizes", named("Int").non_null().list().non_null())], named("String")),
+                ],
+            )
+        };
+        let schema = || {
+            vec![
+                obj_type("Query", vec![fd("me", vec![], named("User")), fd("users", vec![ad("ids", named("ID").non_null().list().non_null())], named("User"))]),
+                user(),
+            ]
+        };
+        let id = || sel(None, "id", vec![], None);
+        let me = |kids: Vec<Selection>| home(schema(), vec![], vec![sel(None, "me", vec![], Some(kids))]);
+        let p1 = me(vec![sel(Some("bestFriend"), "name", vec![], None), sel(None, "bestFriend", vec![], Some(vec![id()]))]);
+        out.push(("C16 duplicate scalar-alias-vs-object", format!("validate\tfault:duplicate-response-name:scalar-alias-vs-object\t{}", to_wire(&p1))));
+        let p2 = me(vec![sel(None, "email", vec![], None), sel(Some("email"), "bestFriend", vec![], Some(vec![id()]))]);
+        out.push(("C16 duplicate object-alias-vs-scalar", format!("validate\tfault:duplicate-response-name:object-alias-vs-scalar\t{}", to_wire(&p2))));
+        let p3 = me(vec![sel(None, "name", vec![], None), sel(Some("name"), "email", vec![], None)]);
+        out.push(("C16 duplicate scalar-scalar", format!("validate\tfault:duplicate-response-name:scalar-scalar\t{}", to_wire(&p3))));
+        let p4 = me(vec![sel(None, "bestFriend", vec![], Some(vec![id()])), sel(None, "bestFriend", vec![], Some(vec![sel(None, "name", vec![], None)]))]);
+        out.push(("C16 duplicate object-object", format!("validate\tfault:duplicate-response-name:object-object\t{}", to_wire(&p4))));
+        let p5 = home(schema(), vec![], vec![sel(None, "users", vec![], Some(vec![id()]))]);
+        out.push(("C16 missing list argument linked", format!("validate\tfault:missing-required-argument:list-linked\t{}", to_wire(&p5))));
+        let p6 = me(vec![sel(None, "avatar", vec![], None)]);
+        out.push(("C16 missing list argument scalar", format!("validate\tfault:missing-required-argument:list-scalar\t{}", to_wire(&p6))));
+        let ids = named("ID").non_null().list().non_null();
+        let p7 = home(schema(), vec![VarDef { name: "ids".into(), ty: ids, default: None }], vec![sel(None, "users", vec![("ids", Value::var("ids"))], Some(vec![id()]))]);
+        out.push(("C16 list argument given", format!("validate\tvalid:list-argument\t{}", to_wire(&p7))));
     }
     // C16: required argument missing on a selection WITH a selection set
     {
